@@ -140,6 +140,31 @@ def run(ctx):
                 oracle_fail.append({"case": "churn-" + kind, "why": "live-object count after the loop depends on the iteration count", "runs(k, live, res)": v,
                                     "source": gen_prog.churn(kind, 10)})
 
+    # wide fan-in: one object referenced from tens of thousands of places at once (a count that does not fit 8 or 16 bits), then
+    # references dropped one by one; implementation only (the model's list-based arrays are quadratic here): registry + output
+    fan_src = []
+    for k in (300, 66000):
+        fan_src.append(("fanin-%d" % k,
+            "fn main() -> int {\n    let s: string = (+ \"he\" \"llo\")\n    let mut arr: array<string> = []\n    let mut i: int = 0\n    while (< i %d) {\n        set arr (array_push arr s)\n        set i (+ i 1)\n    }\n"
+            "    (println (array_length arr))\n    set arr (array_remove_at arr 0)\n    set arr (array_remove_at arr 0)\n    let t: string = (int_to_string 12345)\n    (println t)\n    (println s)\n    (println (at arr 7))\n"
+            "    (println (at arr %d))\n    let mut j: int = 0\n    while (< j %d) {\n        set arr (array_remove_at arr 0)\n        set j (+ j 1)\n    }\n    (println (array_length arr))\n    (println s)\n    return 0\n}\nshadow main { assert (== 1 1) }\n"
+            % (k, k - 3, k - 2)))
+    compf = progs.compile_sources(plain, fan_src)
+    flines = ["vm.run 20000000 0 " + b.hex() for n, t, b, e in compf if b]
+    fnames = [n for n, t, b, e in compf if b]
+    pf = common.batch_robust(probe, flines, timeout=3000, env=env)
+    for n, c in zip(fnames, pf):
+        ctx.case(n)
+        k = int(n.split("-")[1])
+        want = ("%d\n12345\nhello\nhello\nhello\n0\nhello\n" % k).encode().hex()
+        w = dict(x.split("=", 1) for x in c[2:].split()) if c.startswith("R ") else {}
+        if w.get("res") != "0" or w.get("out") != want or w.get("dangling") != "false":
+            oracle_fail.append({"case": n, "why": "an object referenced from %d places at once is freed early / double freed / the program misbehaves" % k,
+                                "impl": c[:300], "expected_out_hex": want})
+    ctx.cov["fanin_runs"] = len(fnames)
+    if len(fnames) != len(fan_src):
+        oracle_fail.append({"case": "fanin", "why": "fan-in program rejected by the compiler", "diag": [e for n, t, b, e in compf if not b][:1]})
+
     ctx.cov["disagreements_checked"] = len(disagreements)
     ctx.cov["traces_validated_against_impl"] = len(cases)
     ctx.sample({"case": cases[0][0]}); ctx.sample({"case": cases[-1][0]})
